@@ -549,6 +549,8 @@ class GBNFCompiler:
         # Escape backslashes first, then quotes
         result = value.replace("\\", "\\\\")
         result = result.replace('"', '\\"')
+        # A raw line break would end the rule in the middle of the literal
+        result = result.replace("\n", "\\n").replace("\r", "\\r")
         return result
 
     def compile_chain(self, chain: ConstraintChain) -> str:
@@ -608,7 +610,8 @@ class GBNFCompiler:
         rules: list[str] = []
 
         # Add primitives
-        rules.append("# GBNF Grammar for OCTAVE schema: " + schema.name)
+        # The name is free text (META.TYPE): keep the comment on one line
+        rules.append("# GBNF Grammar for OCTAVE schema: " + re.sub(r"[\r\n]+", " ", schema.name))
         rules.append("")
 
         # Whitespace rule
@@ -629,7 +632,7 @@ class GBNFCompiler:
                 pattern = "[^\\n]*"
 
             # Create field rule: field-name ::= "FIELD_NAME" "::" ws pattern
-            rules.append(f'{rule_name} ::= "{field_name}" "::" ws {pattern}')
+            rules.append(f'{rule_name} ::= "{self._escape_literal(field_name)}" "::" ws {pattern}')
 
         rules.append("")
 
@@ -646,7 +649,7 @@ class GBNFCompiler:
 
         # Build document structure
         if include_envelope:
-            schema_name = schema.name.upper()
+            schema_name = self._escape_literal(schema.name.upper())
             rules.append(f'envelope-start ::= "==={schema_name}==="')
             rules.append('envelope-end ::= "===END==="')
             rules.append("")
